@@ -40,6 +40,22 @@ Definition L_tries : text := Eval vm_compute in s2z "tries".
 Definition L_expected : text := Eval vm_compute in s2z "expected".
 Definition L_Undecodable : text := Eval vm_compute in s2z "Undecodable: ".
 
+(* literals used by the theorems and examples *)
+Definition T_PROCESS_STATE_prefix : text := Eval vm_compute in s2z "PROCESS_STATE_".
+Definition T_PROCESS_STATE_BACKOFF : text := Eval vm_compute in s2z "PROCESS_STATE_BACKOFF".
+Definition T_PROCESS_STATE_EXITED : text := Eval vm_compute in s2z "PROCESS_STATE_EXITED".
+Definition T_PROCESS_STATE_FATAL : text := Eval vm_compute in s2z "PROCESS_STATE_FATAL".
+Definition T_PROCESS_STATE_RUNNING : text := Eval vm_compute in s2z "PROCESS_STATE_RUNNING".
+Definition T_PROCESS_STATE_STARTING : text := Eval vm_compute in s2z "PROCESS_STATE_STARTING".
+Definition T_PROCESS_STATE_STOPPED : text := Eval vm_compute in s2z "PROCESS_STATE_STOPPED".
+Definition T_PROCESS_STATE_STOPPING : text := Eval vm_compute in s2z "PROCESS_STATE_STOPPING".
+Definition T_PROCESS_STATE_UNKNOWN : text := Eval vm_compute in s2z "PROCESS_STATE_UNKNOWN".
+Definition T_cat : text := Eval vm_compute in s2z "cat".
+Definition T_grp : text := Eval vm_compute in s2z "grp".
+Definition T_listener : text := Eval vm_compute in s2z "listener".
+Definition T_exited_payload_text : text := Eval vm_compute in s2z "processname:cat groupname:grp from_state:RUNNING expected:0 pid:4711".
+Definition T_supervisor : text := Eval vm_compute in s2z "supervisor".
+
 (* '%s' % x where x is a str or None *)
 Definition opt_text (o : option text) : text :=
   match o with Some t => t | None => L_None end.
